@@ -559,6 +559,8 @@ def packed_cell_history(ctx, mon, rng):
 
 
 def run(ctx):
+    from .. import wtests
+    wtests.run(ctx)
     mon = install(ctx)
     rng = ctx.rng
     for _ in range(ctx.budget(400, 6_000)):
@@ -573,6 +575,9 @@ def run(ctx):
     for i in range(n):
         if not ctx.alive():
             break
+        if rng.random() < 0.1:
+            from .. import noise
+            noise.burst(ctx, rng, exclude=('grid',))
         cls, verts = gen_vertices(rng)
         bins = rng.choice((1, 2, 3, 3, 4, 5, 7, 16, 17, 20, 33))
         reverse = rng.random() < 0.5
@@ -618,6 +623,7 @@ def run(ctx):
     ctx.need("monitor:empty-neighbourhood fallback checked", 300)
     ctx.need("monitor:tour completed (exactly-once)", 300)
     ctx.need("hook:remove_path observed", 5_000)
+    ctx.need("history: after calls to other library functions", 70)
     contracts.uninstall_all()
 
 
